@@ -25,6 +25,7 @@ KEYS = "OrqModel.Properties.Keys"
 NEXTTOTAL = "OrqModel.Properties.NextTotal"
 TRUTH = "OrqModel.Properties.Truth"
 ANCESTRY = "OrqModel.Properties.Ancestry"
+FRAME = "OrqModel.Properties.Frame"
 
 TRUSTED = [
     "Lean 4.33 kernel (thorough tier: re-checked by leanchecker)",
@@ -107,7 +108,8 @@ PROPS = {
         title="pause and resume are transparent",
         theorems={STATUS: ["C09_report_while_pausing", "tbl_paused_doors", "tbl_dormant_doors_task",
                            "tbl_dormant_doors_wf", "tbl_failure_covered"],
-                  NEXT: ["C09_no_offer_while_pausing_or_paused"]},
+                  NEXT: ["C09_no_offer_while_pausing_or_paused"],
+                  FRAME: ["C09_request_touches_only_statuses", "C09_requests_touch_only_statuses", "C09_request_keeps_record_data"]},
         keys=["status", "staged", "sequence", "errors", "output"], offers="ids",
         prof=dict(p_badexpr=0.15, p_join=0.8, p_items=0.12, p_retry=0.06, p_cmd=0.1, p_template=0.3, templates=[0, 0, 6, 7, 2]), hist=dict(p_pause=0.25, p_task_pause=0.05, p_item_pause=0.04), monitor="C09",
         unproven=["C09_transparent (twin-run equality) is relational and not proved; search only"],
@@ -118,7 +120,7 @@ PROPS = {
                            "tbl_dormant_doors_task", "tbl_dormant_doors_wf", "tbl_active_doors_wf",
                            "tbl_cancel_request_never_fails", "tbl_canceling_reports_never_fail",
                            "C10_cancel_request_never_fails", "C10_reports_keep_canceling"],
-                  NEXT: ["C10_no_offer_after_cancel"]},
+                  NEXT: ["C10_no_offer_after_cancel"], FRAME: ["C09_request_touches_only_statuses"]},
         keys=["status", "staged", "sequence", "errors", "output"], offers="ids",
         prof=dict(p_template=0.45, templates=[1, 1, 1, 0, 0, 2, 4, 6], p_join=0.8), hist=dict(p_cancel=0.3, p_pause=0.08, p_fail=0.35, p_first_pending=0.25, p_task_pause=0.15), monitor="C10", unproven=[],
     ),
